@@ -24,6 +24,8 @@ fn dispatch(cmd: &Value) -> Value {
 		"interner" => misc::cmd_interner(cmd),
 		"thunks" => misc::cmd_thunks(cmd),
 		"preintern" => misc::cmd_preintern(cmd),
+		"fmtx" => misc::cmd_fmtx(cmd),
+		"rowan_tree" => ast::cmd_rowan_tree(cmd),
 		"locate" => misc::cmd_locate(cmd),
 		"ping" => json!({"k":"pong"}),
 		_ => json!({"k":"tool_error","msg":format!("unknown cmd {name}")}),
